@@ -218,17 +218,45 @@ theorem findCand_none (t : T) (h : Bytes) : ∀ fuel i, findCand t h fuel i = no
 
 /-! ### verification -/
 
+/-- `find?` over `zipIdx` with a predicate on (pattern, index): the hit is the least index satisfying it -/
+theorem find?_zipIdx_some' {l : List Pat} {P : Pat × Nat → Bool} {p : Pat} {id : Nat}
+    (hr : l.zipIdx.find? P = some (p, id)) :
+    l[id]? = some p ∧ P (p, id) = true ∧ ∀ j q, j < id → l[j]? = some q → P (q, j) = false := by
+  rw [List.find?_eq_some_iff_getElem] at hr
+  obtain ⟨h1, k, hk, h2, h3⟩ := hr
+  rw [List.getElem_zipIdx] at h2
+  simp only [Nat.zero_add, Prod.mk.injEq] at h2
+  obtain ⟨h2a, h2b⟩ := h2
+  subst h2b
+  rw [List.length_zipIdx] at hk
+  refine ⟨?_, h1, ?_⟩
+  · rw [List.getElem?_eq_getElem hk, h2a]
+  · intro j q hj hq
+    have := h3 j hj
+    rw [List.getElem_zipIdx] at this
+    have hjl : j < l.length := by omega
+    rw [List.getElem?_eq_getElem hjl] at hq
+    injection hq with hq
+    rw [hq] at this
+    simpa using this
+
+/-- a verified bucket yields a pattern of that bucket occurring at `pos`, and no earlier pattern of the same
+    bucket occurs there -/
 theorem verifyBucket_some {t : T} {h : Bytes} {pos b id : Nat} (hr : verifyBucket t h pos b = some id) :
-    ∃ p, t.patterns[id]? = some p ∧ occursAt h p pos = true ∧ id % t.nb = b := by
+    ∃ p, t.patterns[id]? = some p ∧ occursAt h p pos = true ∧ id % t.nb = b ∧
+      ∀ j q, j < id → t.patterns[j]? = some q → j % t.nb = b → occursAt h q pos = false := by
   unfold verifyBucket at hr
   rw [Option.map_eq_some_iff] at hr
   obtain ⟨⟨p, id'⟩, hf, hid⟩ := hr
   simp only at hid
   subst hid
-  have h1 := List.find?_some hf
-  have h2 := List.mem_of_find?_eq_some hf
-  rw [List.mem_filter] at h2
-  exact ⟨p, List.mem_zipIdx_iff_getElem?.mp h2.1, h1, by simpa using h2.2⟩
+  rw [List.find?_filter] at hf
+  obtain ⟨h1, h2, h3⟩ := find?_zipIdx_some' hf
+  simp only [decide_eq_true_eq] at h2
+  refine ⟨p, h1, h2.2, h2.1, ?_⟩
+  intro j q hj hq hjb
+  have := h3 j q hj hq
+  simpa [hjb] using this
 
 theorem verifyBucket_none {t : T} {h : Bytes} {pos b : Nat} (hr : verifyBucket t h pos b = none)
     {id : Nat} {p : Pat} (hp : t.patterns[id]? = some p) (hb : id % t.nb = b) : occursAt h p pos = false := by
@@ -239,49 +267,97 @@ theorem verifyBucket_none {t : T} {h : Bytes} {pos b : Nat} (hr : verifyBucket t
     exact ⟨List.mem_zipIdx_iff_getElem?.mpr hp, by simpa using hb⟩)
   simpa using this
 
-theorem range_findSome?_some {β : Type} (f : Nat → Option β) (v : β) : ∀ n, (List.range n).findSome? f = some v →
-    ∃ b, b < n ∧ f b = some v ∧ ∀ c, c < b → f c = none
-  | 0, hr => by simp at hr
-  | n+1, hr => by
-    rw [List.range_succ, List.findSome?_append] at hr
-    cases hn : (List.range n).findSome? f with
-    | some v' =>
-      rw [hn] at hr
-      have hr : v' = v := by simpa using hr
-      rw [hr] at hn
-      obtain ⟨b, hb, h1, h2⟩ := range_findSome?_some f v n hn
-      exact ⟨b, by omega, h1, h2⟩
-    | none =>
-      rw [hn] at hr
-      simp only [Option.none_or, List.findSome?_cons, List.findSome?_nil] at hr
-      rw [List.findSome?_eq_none_iff] at hn
-      refine ⟨n, by omega, ?_, fun c hc => hn c (List.mem_range.mpr hc)⟩
-      cases hfn : f n with
-      | none => rw [hfn] at hr; exact nomatch hr
-      | some w => rw [hfn] at hr; simpa using hr
+/-- one step of the "smallest id wins" fold of `verifyMask` -/
+def minStep (best : Option Nat) (id : Nat) : Option Nat :=
+  match best with
+  | none => some id
+  | some b => some (min b id)
 
+theorem foldl_minStep_some : ∀ (l : List Nat) (a : Nat), ∃ m,
+    l.foldl minStep (some a) = some m ∧ (m = a ∨ m ∈ l) ∧ m ≤ a ∧ ∀ x, x ∈ l → m ≤ x
+  | [], a => ⟨a, rfl, Or.inl rfl, Nat.le_refl _, fun x hx => nomatch hx⟩
+  | y :: ys, a => by
+    obtain ⟨m, h1, h2, h3, h4⟩ := foldl_minStep_some ys (min a y)
+    refine ⟨m, h1, ?_, by omega, ?_⟩
+    · rcases h2 with h2 | h2
+      · by_cases hay : a ≤ y
+        · left; omega
+        · right; rw [List.mem_cons]; left; omega
+      · right; exact List.mem_cons_of_mem _ h2
+    · intro x hx
+      rw [List.mem_cons] at hx
+      rcases hx with hx | hx
+      · subst hx; omega
+      · exact h4 x hx
+
+/-- the fold with `min` returns `none` iff the list is empty, otherwise its least element -/
+theorem foldl_minStep_none : ∀ (l : List Nat), l.foldl minStep none = none → l = []
+  | [], _ => rfl
+  | y :: ys, hr => by
+    obtain ⟨m, h1, _⟩ := foldl_minStep_some ys y
+    rw [List.foldl_cons] at hr
+    have : minStep none y = some y := rfl
+    rw [this, h1] at hr
+    exact nomatch hr
+
+theorem foldl_minStep_eq_some : ∀ (l : List Nat) (m : Nat), l.foldl minStep none = some m →
+    m ∈ l ∧ ∀ x, x ∈ l → m ≤ x
+  | [], _, hr => nomatch hr
+  | y :: ys, m, hr => by
+    obtain ⟨m', h1, h2, h3, h4⟩ := foldl_minStep_some ys y
+    rw [List.foldl_cons] at hr
+    have : minStep none y = some y := rfl
+    rw [this, h1] at hr
+    injection hr with hr
+    subst hr
+    refine ⟨?_, ?_⟩
+    · rcases h2 with h2 | h2
+      · subst h2; exact List.mem_cons_self
+      · exact List.mem_cons_of_mem _ h2
+    · intro x hx
+      rw [List.mem_cons] at hx
+      rcases hx with hx | hx
+      · subst hx; exact h3
+      · exact h4 x hx
+
+theorem verifyMask_eq (t : T) (h : Bytes) (pos m : Nat) :
+    verifyMask t h pos m
+      = ((List.range 8).filterMap fun b => if m.testBit b then verifyBucket t h pos b else none).foldl
+          minStep none := rfl
+
+theorem mem_bucketResults {t : T} {h : Bytes} {pos m id : Nat} :
+    id ∈ ((List.range 8).filterMap fun b => if m.testBit b then verifyBucket t h pos b else none) ↔
+      ∃ b, b < 8 ∧ m.testBit b = true ∧ verifyBucket t h pos b = some id := by
+  rw [List.mem_filterMap]
+  constructor
+  · rintro ⟨b, hb, hv⟩
+    rw [List.mem_range] at hb
+    cases hm : m.testBit b with
+    | true => rw [hm] at hv; exact ⟨b, hb, hm, by simpa using hv⟩
+    | false => rw [hm] at hv; simp at hv
+  · rintro ⟨b, hb, hm, hv⟩
+    exact ⟨b, List.mem_range.mpr hb, by simpa [hm] using hv⟩
+
+/-- the result of `verifyMask` is the result of some verified bucket, and is ≤ the result of every verified bucket -/
 theorem verifyMask_some {t : T} {h : Bytes} {pos m id : Nat} (hr : verifyMask t h pos m = some id) :
     ∃ b, b < 8 ∧ m.testBit b = true ∧ verifyBucket t h pos b = some id ∧
-      ∀ c, c < b → m.testBit c = true → verifyBucket t h pos c = none := by
-  unfold verifyMask at hr
-  obtain ⟨b, hb, h1, h2⟩ := range_findSome?_some _ _ _ hr
-  refine ⟨b, hb, ?_, ?_, ?_⟩
-  · cases hm : m.testBit b with
-    | true => rfl
-    | false => simp [hm] at h1
-  · cases hm : m.testBit b with
-    | true => simpa [hm] using h1
-    | false => simp [hm] at h1
-  · intro c hc hm
-    have := h2 c hc
-    simpa [hm] using this
+      ∀ c id', c < 8 → m.testBit c = true → verifyBucket t h pos c = some id' → id ≤ id' := by
+  rw [verifyMask_eq] at hr
+  obtain ⟨h1, h2⟩ := foldl_minStep_eq_some _ _ hr
+  obtain ⟨b, hb, hm, hv⟩ := mem_bucketResults.mp h1
+  exact ⟨b, hb, hm, hv, fun c id' hc hmc hvc => h2 id' (mem_bucketResults.mpr ⟨c, hc, hmc, hvc⟩)⟩
 
 theorem verifyMask_none {t : T} {h : Bytes} {pos m : Nat} (hr : verifyMask t h pos m = none)
     {b : Nat} (hb : b < 8) (hm : m.testBit b = true) : verifyBucket t h pos b = none := by
-  unfold verifyMask at hr
-  rw [List.findSome?_eq_none_iff] at hr
-  have := hr b (List.mem_range.mpr hb)
-  simpa [hm] using this
+  rw [verifyMask_eq] at hr
+  have hnil := foldl_minStep_none _ hr
+  cases hv : verifyBucket t h pos b with
+  | none => rfl
+  | some id =>
+    have : id ∈ ((List.range 8).filterMap fun b => if m.testBit b then verifyBucket t h pos b else none) :=
+      mem_bucketResults.mpr ⟨b, hb, hm, hv⟩
+    rw [hnil] at this
+    exact nomatch this
 
 theorem verifyMask_none_occ {t : T} (wf : WF t) {h : Bytes} (hb : ∀ k, h.at k < 256) {pos : Nat}
     (hr : verifyMask t h pos (candMask t h pos) = none) : occ t h pos = false := by
@@ -505,10 +581,10 @@ theorem findMatch_sound (t : T) (h : Bytes) (start s id : Nat) (hr : findMatch t
       obtain ⟨p, hp, hop, _⟩ := verifyBucket_some hvb
       exact ⟨p, hp, hop, a⟩
 
-/-- C16 ("complete ⇒ exact span" needs pattern order): with at most 8 patterns the verification order is the
-    pattern order, so the reported pattern is the FIRST pattern (alternation priority) occurring at that offset -/
+/-- C16 ("complete ⇒ exact span"): the reported pattern is the FIRST pattern (alternation priority) occurring at
+    that offset, for any number of patterns -/
 theorem findMatch_priority (t : T) (wf : WF t) (h : Bytes) (hb : ∀ k, h.at k < 256) (start s id : Nat)
-    (h8 : t.patterns.length ≤ 8) (hr : findMatch t h start = some (s, id)) :
+    (hr : findMatch t h start = some (s, id)) :
     ∀ j p, j < id → t.patterns[j]? = some p → occursAt h p s = false := by
   unfold findMatch at hr
   split at hr
@@ -516,23 +592,23 @@ theorem findMatch_priority (t : T) (wf : WF t) (h : Bytes) (hb : ∀ k, h.at k <
   · split at hr
     · exact (findScalar_some t h _ _ _ _ hr).2.2.1
     · obtain ⟨_, hv⟩ := findLoop_some t h _ _ _ _ hr
-      obtain ⟨b, _, _, hvb, hprev⟩ := verifyMask_some hv
-      obtain ⟨q, hq, _, hidb⟩ := verifyBucket_some hvb
-      have hnb : t.nb = t.patterns.length := by rw [wf.nb_eq]; omega
-      have hidlt : id < t.patterns.length := by
-        have := List.getElem?_eq_some_iff.mp hq
-        exact this.1
-      have hb' : id = b := by rw [← hidb, hnb, Nat.mod_eq_of_lt hidlt]
-      subst hb'
+      obtain ⟨b, _, _, _, hmin⟩ := verifyMask_some hv
       intro j p hj hp
-      have hjmod : j % t.nb = j := by rw [hnb]; exact Nat.mod_eq_of_lt (by omega)
       cases hop : occursAt h p s with
       | false => rfl
       | true =>
         have hbit := candMask_sound t wf h hb s j p hp hop
-        rw [hjmod] at hbit
-        have := verifyBucket_none (hprev j hj hbit) hp hjmod
-        rw [this] at hop
-        exact nomatch hop
+        have hlt : j % t.nb < 8 := Nat.lt_of_lt_of_le (Nat.mod_lt _ (nb_pos wf)) (nb_le wf)
+        cases hvj : verifyBucket t h s (j % t.nb) with
+        | none =>
+          have := verifyBucket_none hvj hp rfl
+          rw [this] at hop
+          exact nomatch hop
+        | some id' =>
+          have hle := hmin _ _ hlt hbit hvj
+          obtain ⟨_, _, _, _, hfirst⟩ := verifyBucket_some hvj
+          have := hfirst j p (by omega) hp rfl
+          rw [this] at hop
+          exact nomatch hop
 
 end Cx.Teddy
